@@ -4,6 +4,8 @@ Line-protocol driver of the `clipath` stream (see harness/cmd/kv/clipath.go).  C
     plan m=<c|d> i=<s> o=<s|-> f=<0|1> rm=<0|1> nl=<0|1> nd=<0|1> j=<n> base=<s> cwd=<s> fs=<k:s,k:s,..|-> obs=<rc> [|| plan ...]
     clean <s>                  -> <s>     (filepath.Clean)
     join <s> <s>               -> <s>     (filepath.Join iterated over the components of the 2nd argument)
+    rel <s> <s>                -> <s>|err (filepath.Rel(base, target))
+    base <s>                   -> <s>     (filepath.Base)
 
 Strings `<s>`: bytes `[A-Za-z0-9._/]` literally, every other byte as `%XX`; the empty string is `-`.
 `fs=`: the entries below the directory `base` before the run (`cwd`, the working directory of the
@@ -11,7 +13,7 @@ tool, is `base` or a directory below it), `k` in f (regular file),
 d (directory), lf / ld / lb (symbolic link to a file / to a directory / dangling).
 Answer per `plan` step (steps joined by ` || `):
 
-    <tasks:N|tasks:*|err:CODE|fault|unsupported> rc=<status> tasks=<i>o,i>o,..|-|*> new=<s,s,..|-|*>
+    <tasks:N|tasks:*|err:CODE|unsupported> rc=<status> tasks=<i>o,i>o,..|-|*> new=<s,s,..|-|*>
 
 `tasks:*` when the output is standard output (the tool prints nothing); `rc=` echoes the observed
 exit status `obs` when the model allows it, otherwise `rc=!a|b` (the allowed ones); `tasks=` the
@@ -103,7 +105,6 @@ def cpStep (grp : String) : String :=
                         noLinks := flag "nl", noDot := flag "nd" }
       match plan w.fs a with
       | .err c => s!"err:{c} rc={c} tasks=* new=*"
-      | .fault => "fault rc=127 tasks=* new=*"
       | .unsupported => "unsupported"
       | .tasks ts =>
         let toStdout := eqFold a.out STDOUT
@@ -126,6 +127,14 @@ def clipath (line : String) : String :=
   match ws with
   | ["clean", p] => match cpUnesc p with
     | some p => cpEsc (clean p)
+    | none => "bad-op"
+  | ["rel", b, t] => match cpUnesc b, cpUnesc t with
+    | some b, some t => match filepathRel b t with
+      | some r => cpEsc r
+      | none => "err"
+    | _, _ => "bad-op"
+  | ["base", p] => match cpUnesc p with
+    | some p => cpEsc (baseName p)
     | none => "bad-op"
   | ["join", r, p] => match cpUnesc r, cpUnesc p with
     | some r, some p => cpEsc (walkPath r (cpComps p))
